@@ -2,7 +2,7 @@
 META = {
     "level": "exploration",
     "technique": "runtime monitoring of 1-4 concurrent range reads on one real file node under seeded delivery schedules, with consumers that pause/resume/stop their producer (and stop each other); per-chunk prefix oracle + completion oracle against plaintext[offset:offset+size]; bounded enumeration of all ordered pairs of ranges over a 12-point boundary grid",
-    "text": "Honest in-process grid, real Uploader and downloader. Files: literal (<=55 bytes, LiteralFileNode) and CHK with small segment sizes (2-9 segments, segment sizes both multiples and non-multiples of the 16-byte AES block). On ONE node object 1-4 reads are started (together or staggered by scheduler steps) with (offset,size) drawn around 0, 16*j+-1, segment boundaries +-1, EOF+-1, past EOF, size=None and size=0. Consumers pause after a random number of bytes and resume after a random number of scheduler steps, pause/stop at a step count outside write() (which reaches the per-node segment-request cancel path), stop inside write(), stop at registerProducer, or stop a sibling read from inside their own write(). Every chunk must extend a correct prefix of the requested slice, a success callback requires exact equality, a stopped CHK read must errback with DownloadStopped, no bytes may arrive after stopProducing/unregisterProducer, and every read that was not stopped must complete successfully whatever happened to its siblings. Part two enumerates, for a 3-segment file, every ordered pair of ranges (start<=end) over a 12-point boundary grid as two concurrent reads on one node (complete in the thorough tier, a seed-rotated residue class in the quick tier).",
+    "text": "Honest in-process grid, real Uploader and downloader. Files: literal (<=55 bytes, LiteralFileNode) and CHK with small segment sizes (2-9 segments, segment sizes both multiples and non-multiples of the 16-byte AES block). On ONE node object 1-4 reads are started (together or staggered by scheduler steps) with (offset,size) drawn around 0, 16*j+-1, segment boundaries +-1, EOF+-1, past EOF, size=None and size=0. Consumers pause after a random number of bytes and resume after a random number of scheduler steps, pause/stop at a step count outside write() (which reaches the per-node segment-request cancel path), stop inside write(), stop at registerProducer, or stop a sibling read from inside their own write(). Every chunk must extend a correct prefix of the requested slice, a success callback requires exact equality, a stopped CHK read must errback with DownloadStopped, no bytes may arrive after stopProducing/unregisterProducer, and every read that was not stopped must complete successfully whatever happened to its siblings. A further dimension is the segment size a FRESH node guesses before it has seen a share (production: min(size, 1 MiB); here DownloadNode.default_max_segment_size is set per case to values smaller than, equal to and larger than the real segment size, and restored): first reads on fresh nodes (a fresh client per cold round) at offsets > 0 whose guessed segment number names a real segment that starts inside the wanted range, or lies beyond the last segment. Part two enumerates, for a 3-segment file, every ordered pair of ranges (start<=end) over a 12-point boundary grid as two concurrent reads on one node (complete in the thorough tier, a seed-rotated residue class in the quick tier); every pair runs once on a fresh node with a guess from the rota {1 MiB, 16, S, S/2, 2S, S/3, S-k, 1} and once more on the same, now warm, node.",
     "note": "Ground truth is the uploaded plaintext. Trusts the in-process Wire, the virtual reactor/scheduler and the RangeMap shim. interfaces.py calls reads past EOF a caller error; the property statement defines them (clipped / empty), so they are judged by the statement. Writes that arrive while a push producer is paused are not judged (IPushProducer.pauseProducing is advisory). For LiteralFileNode the exception type of a stopped read is not judged (twisted FileSender raises a plain Exception).",
 }
 LEVEL = "exploration"
@@ -192,8 +192,9 @@ def fdesc(res):
 
 
 def judge(ck, readers, outcome, kind, desc, DownloadStopped, bogus_guess=False):
-    """All verdicts of one round of concurrent reads.  bogus_guess: the round ran on a fresh node and some read's
-    guessed segment number lies beyond the file's real last segment (own mechanism class for failures)."""
+    """All verdicts of one round of concurrent reads.  bogus_guess: the node was created with a segment-size guess
+    smaller than the real one, i.e. it guessed more segments / a larger block hash tree than the file has (own
+    mechanism class for share-exhaustion failures; the damage persists on the node after its first reads)."""
     any_stop = any(r.stop_called for r in readers)
     any_pause = any(r.npauses for r in readers)
     ctx = "/" + kind
@@ -244,8 +245,9 @@ def judge(ck, readers, outcome, kind, desc, DownloadStopped, bogus_guess=False):
         if isinstance(res, Failure):
             how = "sibling-stopped" if any_stop else "sibling-paused-or-self-paused" if any_pause else "undisturbed"
             if bogus_guess and res.type.__name__ in ("NoSharesError", "NotEnoughSharesError"):
-                how = "cold-node-guessed-segment-beyond-real-last"
-            ck.violation("read-failed-on-honest-grid/%s/%s%s" % (how, res.type.__name__, ctx),
+                how = "node-guessed-more-segments-than-real"
+            ck.violation("read-failed-on-honest-grid/%s/%s%s" % (
+                             how, "out-of-shares" if how.startswith("node-guessed") else res.type.__name__, ctx),
                          "read(offset=%r,size=%r) errbacked with %s (%s)" % (r.offset, r.size, fdesc(res), how), w)
             continue
         ck.hit("read-completed")
@@ -382,12 +384,6 @@ def guess_candidates(seg, k):
     return [None, None, seg, 16, max(1, seg // 2), max(1, seg // 3), seg - k, seg - 1, seg + k, 2 * seg, 1, k]
 
 
-def bogus_guess_round(readers, guess_eff, seg, size):
-    """True if some non-empty read of a cold round asks (by the guess) for a segment number >= the real count."""
-    nseg = (size + seg - 1) // seg
-    return guess_eff < seg and any(len(r.expected) and r.offset and r.offset // guess_eff >= nseg for r in readers)
-
-
 def note_cold_guess(ck, readers, guess_eff, seg, size):
     """Behavioural reach counters of cold reads whose first segment request is computed from a wrong guess."""
     for r in readers:
@@ -522,7 +518,7 @@ def sampled_case(ck, rng, i, DownloadStopped):
                 ck.observe("step-limit")
                 ck.inconclusive_because("step limit reached in a round of reads")
             judge(ck, readers, outcome, kind, dict(desc, round=rnd, cold=cold), DownloadStopped,
-                  bogus_guess=cold and kind == "chk" and bogus_guess_round(readers, guess_eff, seg, p["size"]))
+                  bogus_guess=kind == "chk" and guess_eff < seg)
             if cold and kind == "chk":
                 note_cold_guess(ck, readers, guess_eff, seg, p["size"])
             was_cold, cold = cold, False
@@ -639,7 +635,7 @@ def enumerated_part(ck, deadline_frac, DownloadStopped):
                         judge(ck, readers, outcome, "chk",
                               dict(k=k, n=p["n"], max_segsize=S, size=size, profile=profile, part="enumeration",
                                    node=temp, guessed_segsize=guess_eff), DownloadStopped,
-                              bogus_guess=temp == "cold" and bogus_guess_round(readers, guess_eff, S, size))
+                              bogus_guess=guess_eff < S)
                     if temp == "cold":
                         note_cold_guess(ck, readers, guess_eff, S, size)
                     ck.hit("enumerated-pair-" + temp)
@@ -750,6 +746,12 @@ def run(ck):
 #   c04-read-does-not-clip-size-at-eof                                                             -> read-raised-synchronously
 #   c04-read-size-none-means-size-minus-offset-plus1                                               -> success-with-wrong-length/chk
 #   c04-literal-slice-end-is-size, c04-literal-size-none-skips-a-byte, c04-literal-ignores-offset  -> */lit
-# GENUINE on the unchanged tree: read-failed-on-honest-grid/sibling-stopped/AssertionError/chk
+# SEEDED: /verif/seeded/C02-1 (Segmentation._got_segment accepts a segment that overlaps the range without holding
+#   its first byte) -> wrong-bytes-delivered/chk, needs a fresh node whose guessed segment size is below the real one.
+# GENUINE (found with the guess dimension, open): read-failed-on-honest-grid/node-guessed-more-segments-than-real/out-of-shares/chk
+#   downloader/share.py Share._desire: once the real offset table is known but the UEB is not, block hashes/data of the
+#   (guessed) segnum in the (guessed, larger) block hash tree count as NEEDED; they can lie beyond the end of the share,
+#   every share is abandoned with DataUnavailable and the read fails (No/NotEnoughSharesError) on an honest grid.
+# GENUINE (fixed in /repo by d0375ab): read-failed-on-honest-grid/sibling-stopped/AssertionError/chk
 #   downloader/node.py process_blocks/_check_ciphertext_hash: a read cancelled while its segment is being decoded
 #   (defer_to_thread) leaves a stale completion that asserts on / clears another fetcher's _active_segment.
